@@ -38,6 +38,57 @@ def su_gens(rng, n, kind=None):
             gs.insert(rng.randrange(len(gs) + 1), rng.choice(gs))
     return gs
 
+# ---- a collection that was classified and whose member string was then edited IN PLACE (the string objects are shared with
+# the caller): the optimiser must work on the strings the collection holds NOW, whatever was cached before
+def optimise_after_member_edit(line):
+    """`optedit <G> <i> <j> <L> <rnd>`"""
+    from impl_graph import coll
+    import impl_collection as IC
+    try:
+        _, gs, i, j, L, rnd = line.split(" ")
+        c = coll(gs)
+        c.get_algebra(); c.get_dependents(); c.copy()
+        P = c.get()[int(i) % len(c)]
+        P[int(j) % len(P)] = L
+        now = IC.names(c)
+        old = IO.psc.randint
+        sc = IO.Script([int(x) for x in rnd.split(",")])
+        IO.psc.randint = sc
+        try:
+            r = IO.get_optimal_su_2_n_generators(c)
+            out = "None" if r is None else plist(r.get())
+        except IO.Budget:
+            out = "!Budget"
+        except Exception as e:
+            out = exc_name(e)
+        finally:
+            IO.psc.randint = old
+        return "now=" + ",".join(now) + " out=" + out
+    except Exception as e:
+        return exc_name(e)
+
+def oracle_after_member_edit(line, out):
+    if out.startswith("!"):
+        return f"raised {out}"
+    f = fields(out)
+    now = lst(f["now"]); o = f["out"]
+    n = len(now[0])
+    C = O.closure_strs(now)
+    if len(C) != 4 ** n - 1 or len(set(now)) != len(now):
+        return None          # after the edit the collection no longer generates su(2^n) (or holds a repeat): outside the property
+    why = check_result(now, o)
+    if not why and O.closure_strs(lst(o)) != C:
+        why = f"optimised set {o} generates {len(O.closure_strs(lst(o)))} strings, the collection {len(C)}"
+    return (why + f" for the collection {now} (classified, then one member edited in place)") if why else None
+
+def gen_member_edit(rng):
+    n = rng.choice([2, 2, 3])
+    gs = su_gens(rng, n, rng.choice(["random", "minimal"]))
+    gs = gs + [G.mulstr(*rng.sample(gs, 2))] if rng.random() < 0.6 else gs       # a dependent member: editing matters
+    gs = list(dict.fromkeys(gs))
+    return " ".join(["optedit", ",".join(gs), str(rng.randrange(len(gs))), str(rng.randrange(n)), rng.choice("IXYZ"),
+                     ",".join(str(rng.randint(0, 10 ** 6)) for _ in range(40))])
+
 def already_optimal(rng, n, tries=400):
     """generating sets (made minimal, then possibly with a repeated member) whose own anticommutation graph already has the
     target number floor(0.706*pairs) of edges: the boundary where a search may stop before it starts"""
@@ -182,6 +233,8 @@ def build_streams(rng, tier):
         Stream("su(2^n)-generating-sets", lines, IO.handle, **kw),
         Stream("seeds-of-the-tie-breaking", seeds, IO.handle, **kw),
         Stream("inputs-already-at-the-target", boundary, IO.handle, **kw),
+        Stream("classified-then-member-edited-in-place", [gen_member_edit(rng) for _ in range(1500 if th else 400)], optimise_after_member_edit,
+               oracle=oracle_after_member_edit, model=False, tag=lambda l, o: "member-edit"),
         Stream("all-random-choices(model)", explore, explore_one, batch_oracle=explore_oracle, model=False,
                tag=lambda l, o: "exploration-undecided(time limit)" if o == "!ExploreTimeout" else "explored", nontrivial=lambda l, o: ";" in o),
         Stream("target-number-of-pairs", edges, IO.handle, oracle=edges_oracle, nontrivial=lambda l, o: o != "-1"),
